@@ -1,7 +1,7 @@
 #!/usr/bin/env python3
 """Sensitivity testing: apply one small source mutation to /repo, run a check, undo it.
 
-usage: mutate.py <mutant-name>|--all [--prop Cnn] [--runs N] [--suite] [--tier quick]
+usage: mutate.py <mutant-name>|--all [--prop Cnn] [--runs N] [--suite] [--tier quick] [--worktree]
 Mutants are (file, old, new) single-occurrence replacements listed in mutants/mutants.json:
   {"name": {"property": "C14", "file": "passlib/totp.py", "old": "...", "new": "...", "note": "..."}}
 Results are appended to mutants/results.jsonl. /repo is always restored (git checkout -- <file>).
@@ -11,6 +11,7 @@ import json, os, subprocess, sys, time
 VERIF = os.path.dirname(os.path.dirname(os.path.abspath(__file__)))
 os.environ["VERIF_EVIDENCE_DIR"] = "/tmp/verif-sensitivity-evidence"  # never overwrite the unchanged tree's evidence
 REPO = "/repo"
+WT = None
 
 
 def run(cmd, **kw):
@@ -31,6 +32,13 @@ def main():
         names = sorted(n for n in muts if not muts[n].get("equivalent"))
         if "prop" in opt:
             names = [n for n in names if muts[n]["property"] == opt["prop"]]
+    global REPO, WT
+    if "--worktree" in args:
+        # mutate a private worktree instead of /repo itself, so that other work against /repo can go on meanwhile
+        WT = f"/tmp/mut-wt-{os.getpid()}"
+        run(f"git -C /repo worktree add --detach {WT} HEAD")
+        REPO = WT
+        os.environ["VERIF_REPO_ROOT"] = WT
     dirty = run(f"git -C {REPO} status --porcelain").stdout.strip()
     if dirty:
         print("refusing: /repo has uncommitted changes:\n" + dirty)
@@ -55,7 +63,7 @@ def main():
                 open(path, "w").write(src.replace(e["old"], e["new"]))
             suite = None
             if "--suite" in args:
-                p = run(f"/venv/bin/python {VERIF}/tools/baseline_check.py")
+                p = run(f"/venv/bin/python {VERIF}/tools/baseline_check.py {REPO}")
                 suite = p.returncode == 0
             prop = opt.get("prop", m["property"])
             t0 = time.time()
@@ -76,7 +84,11 @@ def main():
                 fh.write(json.dumps(res) + "\n")
         finally:
             run(f"git -C {REPO} checkout -- .")
-    run(f"rm -f {VERIF}/replays/C*.json")
+    if WT:
+        run(f"git -C /repo worktree remove --force {WT}")
+        run("git -C /repo worktree prune")
+    else:
+        run(f"rm -f {VERIF}/replays/C*.json")
     return rc
 
 
